@@ -250,6 +250,19 @@ def gen(rng, tier, index=0):
     plan = {'knobs': knobs, 'start_wall_us': start_wall, 'tz_s': tz_s, 'dur_us': dur_us,
             'blocks': blocks, 'ops': ops, 'probe_seed': rng.randrange(1 << 30),
             'n_random_probes': 30}
+    # a block's output event may reconfigure another block (or the block itself) in the very
+    # instant of an alarm that both may share (every TimeDate shares midnight)
+    plan['links'] = []
+    if rng.random() < 0.2:
+        src = rng.choice(blocks)
+        dst = rng.choice(blocks)
+        local = start_wall + (0 if dst['utc'] else tz_s * US)
+        lcfg = rnd_cfg(rng, dst['kind'], dst['utc'], list(_abs_seq(local)[:3]), anchors, local)
+        if rng.random() < 0.5 and dst['kind'] == 'td' and src['kind'] == 'td' and src.get('times'):
+            # share an alarm time with the source
+            lcfg['times'] = (lcfg['times'] or []) + [rng.choice(src['times'])]
+        lcfg['name'] = dst['name']
+        plan['links'].append({'src': src['name'], 'dst': dst['name'], 'cfg': lcfg})
     # modelled clock-read latency: what one time.time()/datetime.now() call costs
     plan['read_cost_ns'] = rng.choice([1000] * 5 + [2000, 5000, 20_000, 60_000])
     return plan
@@ -257,12 +270,12 @@ def gen(rng, tier, index=0):
 
 # --------------------------------------------------------------------------- execution
 
-def mk_block(cfg):
+def mk_block(cfg, **kwargs):
     try:
         if cfg['kind'] == 'td':
             return edzed.TimeDate(cfg['name'], times=cfg['times'], dates=cfg['dates'],
-                                  weekdays=cfg['weekdays'], utc=cfg['utc'])
-        return edzed.TimeSpan(cfg['name'], span=cfg['span'], utc=cfg['utc'])
+                                  weekdays=cfg['weekdays'], utc=cfg['utc'], **kwargs)
+        return edzed.TimeSpan(cfg['name'], span=cfg['span'], utc=cfg['utc'], **kwargs)
     except Exception as err:
         raise PlanError(f"block construction: {type(err).__name__}: {err}") from None
 
@@ -283,9 +296,39 @@ def execute(plan, trace=False):
         loop = run.loop
         blocks = {}
         cfgs = {}
+        links = {}
+        for ln in plan.get('links', []):
+            links.setdefault(ln['src'], []).append(ln)
+
+        def mk_link_filter(ln):
+            def link_filter(data):
+                if not st['ready'] or st['terminated'] or data.get('previous') is edzed.UNDEF:
+                    return False
+                if blocks[ln['dst']]._event_active:
+                    # the destination is handling an event itself (self-link triggered by
+                    # its own reconfig): sending now would be a forbidden recursive event
+                    return False
+                cfg = dict(ln['cfg'])
+                cfg['name'] = ln['dst']
+                cfgs[ln['dst']] = cfg
+                st['last_reconfig_ns'][ln['dst']] = loop._ns
+                st['recent_ops'].append((loop._ns, 'reconfig', ln['dst']))
+                run.fired('reach:reconfig_by_output_event')
+                run.log('link-reconfig', ln['src'], ln['dst'])
+                return reconfig_data(cfg)
+            return link_filter
+
         for cfg in plan['blocks']:
-            blocks[cfg['name']] = mk_block(cfg)
+            kwargs = {}
+            if cfg['name'] in links:
+                kwargs['on_output'] = [
+                    edzed.Event(ln['dst'], 'reconfig', efilter=mk_link_filter(ln))
+                    for ln in links[cfg['name']]]
+            blocks[cfg['name']] = mk_block(cfg, **kwargs)
             cfgs[cfg['name']] = cfg
+        for ln in plan.get('links', []):
+            if ln['dst'] not in blocks:
+                raise PlanError('link to a missing block')
         circuit = edzed.get_circuit()
         lat_us = knobs['latency_ns'] // 1000
         cost_us = knobs['cost_ns'] // 1000
@@ -474,6 +517,7 @@ def execute(plan, trace=False):
             horizon = dur_us
             allcfg = list(plan['blocks']) + [dict(op['cfg'], name=op['blk'])
                                              for op in plan['ops'] if op['op'] == 'reconfig']
+            allcfg += [dict(ln['cfg'], name=ln['dst']) for ln in plan.get('links', [])]
             for cfg in allcfg:
                 bl = cfg_boundaries_loop(cfg, plan['start_wall_us'], tz_us, horizon)
                 if len(bl) > 40:
